@@ -28,7 +28,7 @@ class Contract:
     def __init__(self, target, prop, cases=None, inputs=None, pre=None, returns=None, ensures=None,
                  raises=None, yields_count=None, yields_item=None, invariants=None, result=None,
                  modular=True, allow_exc=(), notes=(), frame=None, loop_havoc=None, expect=None,
-                 may_raise=None, events=None, abstract_hook=None, native=None):
+                 may_raise=None, events=None, abstract_hook=None, native=None, assumed=False, on_raise=None):
         self.target = target
         self.prop = prop
         self.cases = cases or ["-"]
@@ -51,6 +51,8 @@ class Contract:
         self.events = events                  # loop ordinal -> fn(S, events) -> Bool (trace schema)
         self.abstract_hook = abstract_hook    # model of calls on abstract objects while verifying this fn
         self.native = native                  # name of the native replay function (contracts/native.py)
+        self.on_raise = on_raise or []        # list of (name, fn(A)): must hold when the function raises
+        self.assumed = assumed                # contract NOT verified (external / trusted): only usable at call sites, listed as assumption
         REGISTRY[target] = self
 
     @property
@@ -290,6 +292,8 @@ def apply_contract(I, ctr, fv, values):
     ctx = I.ctx
     A = NS(values)
     callee = ctr.qualname
+    if ctr.assumed:
+        ctx.note(f"ASSUMED (not verified) contract used for {ctr.target}")
     site = f"{callee}@{'>'.join(ctx.frames[-2:])}"
     if ctr.pre is not None:
         ctx.prove(f"call-pre:{site}", "call-pre", ctr.pre(A))
@@ -396,3 +400,14 @@ def register_alias(target, base_target):
 
 
 ALIASES = {}
+
+
+def PointwiseEq(a, b, name="p"):
+    """a == b as 1-d sequences, stated at a FRESH index constant (proving it for an arbitrary index proves it for
+    all); element functions are evaluated at a ground term, so quotient/remainder encodings may be used"""
+    a, b = as_arr(a), as_arr(b)
+    i = CUR.ctx.fresh_int(name)
+    CUR.ctx.inputs[str(i)] = i
+    inr = And(i >= 0, i < to_z3(a.shape[0]))
+    CUR.ctx.assume(inr)                 # only constrains the fresh constant
+    return And(Eq(a.shape[0], b.shape[0]), equiv(a.fn(i), b.fn(i)))
